@@ -23,3 +23,11 @@ Definition entry_logout (c : acfg) (q : areq) (rnd : N) (redirect_to : sval) : l
 
 Definition entry_callback (c : acfg) (tokens_ok : bool) (jti : N) (r : cbreq) : cb_out :=
   callback c (fun _ _ => tokens_ok) jti r.
+
+(* the store after the callback; the value of a session created by it is written as 0 *)
+Definition entry_callback_store (c : acfg) (tokens_ok : bool) (jti : N) (r : cbreq) (newk : N) (s : astore) : astore :=
+  callback_store c (fun _ _ => tokens_ok) jti r newk 0 s.
+
+(* the jti draws of n back-channel requests in the order their client authentication is built (0 = no assertion: client secret) *)
+Definition entry_backchannel_jtis (c : acfg) (n : N) : list N :=
+  map (fun p => match assertion_of p with Some j => j | None => 0 end) (back_channel_auths c 1 (N.to_nat n)).
